@@ -63,6 +63,10 @@ Handshake(c, out) == /\ cn[c].hs = "pending"
 Pass(plan) == /\ \A c \in Conns : plan[c].m <= Len(cn[c].kern)
               /\ cn' = [c \in Conns |-> SendEff(RecvEff(HsEff(cn[c], plan[c].hs), plan[c].m, plan[c].tail), plan[c].out)]
               /\ UNCHANGED raised /\ Log("pass", 0, plan)
+\* the endpoint's whole service entry point is called once more on a connection that was cut off or whose handshake was
+\* aborted (a client tries to connect again, a server has dropped it): nothing of this connection moves, nothing is raised
+Again(c) == /\ (cn[c].cutoff \/ cn[c].hs = "aborted") /\ h # <<>> /\ h[Len(h)].op # "again"
+            /\ UNCHANGED <<cn, raised>> /\ Log("again", c, <<>>)
 Blocks == IF Tls THEN {<<"block">>, <<"blockw">>} ELSE {<<"block">>}
 Outs == {<<"acc", k>> : k \in Accepts} \cup Blocks \cup {<<"fault", f>> : f \in Faults}
 Tails == {<<"block">>, <<"eof">>} \cup {<<"fault", f>> : f \in Faults}
@@ -74,6 +78,7 @@ Next == /\ Len(h) < MaxOps
                 \/ \E n \in PeerSizes : PeerSend(c, n)
                 \/ (~WithPass /\ \E out \in Outs : Send(c, out))
                 \/ (~WithPass /\ \E out \in HsOuts : Handshake(c, out))
+                \/ (~WithPass /\ Again(c))
                 \/ (~WithPass /\ \E m \in 0..Len(cn[c].kern), sz \in ChunkSizes, tail \in Tails : Recv(c, m, sz, tail))
            \/ (WithPass /\ \E plan \in Plans : Pass(plan))
            \/ (WithPass /\ \E gone \in [Conns -> BOOLEAN] : Accept(gone))
